@@ -466,42 +466,42 @@ func operandPure(c *Check, r *Repo, f *ssa.Function, methods map[string]*ssa.Fun
 	}
 	collect(f)
 	for _, body := range bodies {
-	instrsOf(body, func(in ssa.Instruction) {
-		switch x := in.(type) {
-		case *ssa.Store:
-			nStores++
-			if a, ok := x.Addr.(*ssa.Alloc); ok && func() bool { _, p := a.Type().(*types.Pointer).Elem().Underlying().(*types.Pointer); return p }() {
-				return // a local pointer variable: judged where it is read
-			}
-			if _, ok := x.Addr.(*ssa.FreeVar); ok {
-				return // a captured local variable
-			}
-			if ao := org(x.Addr); ao != oFresh {
-				bad = append(bad, fmt.Sprintf("%s: store through a pointer of origin %s", r.pos(x.Pos()), originName(ao)))
-			}
-			if _, isPtr := x.Val.Type().Underlying().(*types.Pointer); isPtr {
-				if vo := org(x.Val); vo == oParam || vo == oUnknown {
-					bad = append(bad, fmt.Sprintf("%s: a pointer of origin %s is stored into the result (operand storage becomes reachable from, and writable through, the result)", r.pos(x.Pos()), originName(vo)))
+		instrsOf(body, func(in ssa.Instruction) {
+			switch x := in.(type) {
+			case *ssa.Store:
+				nStores++
+				if a, ok := x.Addr.(*ssa.Alloc); ok && func() bool { _, p := a.Type().(*types.Pointer).Elem().Underlying().(*types.Pointer); return p }() {
+					return // a local pointer variable: judged where it is read
 				}
-			}
-		case ssa.CallInstruction:
-			callee := x.Common().StaticCallee()
-			if callee == nil || callee.Pkg != f.Pkg || callee == newSet {
-				return
-			}
-			if mutatesOperand(callee, methods, newSet, mutMemo) {
-				nCalls++
-				for _, a := range x.Common().Args {
-					if _, isPtr := a.Type().Underlying().(*types.Pointer); !isPtr {
-						continue
-					}
-					if ro := org(a); ro != oFresh {
-						bad = append(bad, fmt.Sprintf("%s: %s, which writes through its pointer arguments, is given a pointer of origin %s", r.pos(in.Pos()), callee.Name(), originName(ro)))
+				if _, ok := x.Addr.(*ssa.FreeVar); ok {
+					return // a captured local variable
+				}
+				if ao := org(x.Addr); ao != oFresh {
+					bad = append(bad, fmt.Sprintf("%s: store through a pointer of origin %s", r.pos(x.Pos()), originName(ao)))
+				}
+				if _, isPtr := x.Val.Type().Underlying().(*types.Pointer); isPtr {
+					if vo := org(x.Val); vo == oParam || vo == oUnknown {
+						bad = append(bad, fmt.Sprintf("%s: a pointer of origin %s is stored into the result (operand storage becomes reachable from, and writable through, the result)", r.pos(x.Pos()), originName(vo)))
 					}
 				}
+			case ssa.CallInstruction:
+				callee := x.Common().StaticCallee()
+				if callee == nil || callee.Pkg != f.Pkg || callee == newSet {
+					return
+				}
+				if mutatesOperand(callee, methods, newSet, mutMemo) {
+					nCalls++
+					for _, a := range x.Common().Args {
+						if _, isPtr := a.Type().Underlying().(*types.Pointer); !isPtr {
+							continue
+						}
+						if ro := org(a); ro != oFresh {
+							bad = append(bad, fmt.Sprintf("%s: %s, which writes through its pointer arguments, is given a pointer of origin %s", r.pos(in.Pos()), callee.Name(), originName(ro)))
+						}
+					}
+				}
 			}
-		}
-	})
+		})
 	}
 	// a returned *Set must be fresh too: handing back an operand (or something reachable
 	// from one) lets a later Add on the result change the operand
